@@ -200,7 +200,7 @@ class SMSimfile(BaseSimfile):
             key = param.key.upper()
             if key == "NOTES":
                 self.charts.append(SMChart.from_msd(param.components[1:]))
-            elif key in BaseSimfile.MULTI_VALUE_PROPERTIES:
+            elif key in BaseSimfile.MULTI_VALUE_PROPERTIES and param.value is not None:
                 self[key] = ":".join(param.components[1:])
             else:
                 self[key] = param.value
